@@ -3,6 +3,7 @@ package worlds
 import (
 	"bytes"
 	"context"
+	"encoding/binary"
 	"encoding/hex"
 	"encoding/json"
 	"errors"
@@ -501,7 +502,120 @@ func (w *c04World) inputCountSweep(c *kernel.RunCtx) {
 	c.Count("probe.input_count_sweep", 1)
 }
 
+// keyChurn: what a long-lived validating process meets. A few parties sign a spend each; the process then checks
+// signatures for tens of thousands of OTHER public keys (bare pay-to-public-key spends with junk signatures: their
+// verdicts do not matter, what matters is that the interpreter has parsed that many distinct keys); then the first
+// parties' untouched transactions are verified again, their keys sign afresh, and one signature is presented for
+// another party's key. One run per check, a few seconds.
+func (w *c04World) keyChurn(c *kernel.RunCtx) {
+	s := &c04State{c: c, tx: bt.NewTx(), shared: map[int]*bscript.Script{}}
+	c.Begin("churn")
+	seed := c.U64n(1 << 62)
+	nkeys := 66000 + c.Choose(6000)
+	flag := c04Flags[c.Choose(len(c04Flags))]
+	c.End()
+	type spend struct {
+		priv  *bec.PrivateKey
+		lock  []byte
+		tx    *bt.Tx
+		value uint64
+	}
+	var first []*spend
+	mk := func(i int) *spend {
+		kb := make([]byte, 32)
+		binary.BigEndian.PutUint64(kb[8:], seed)
+		binary.BigEndian.PutUint64(kb[24:], uint64(i)+1)
+		priv, pub := bec.PrivKeyFromBytes(bec.S256(), kb)
+		sp := &spend{priv: priv, lock: p2pkh(crypto.Hash160(pub.SerialiseCompressed())), tx: bt.NewTx(), value: uint64(5000 + i)}
+		txid := make([]byte, 32)
+		txid[0], txid[5] = byte(i+1), 0x77
+		if err := sp.tx.FromUTXOs(&bt.UTXO{TxID: txid, Vout: uint32(i), Satoshis: sp.value, LockingScript: scriptPtr(sp.lock)}); err != nil {
+			c.Fail("api", "FromUTXOs", "FromUTXOs failed: %v", err)
+			return nil
+		}
+		sp.tx.AddOutput(&bt.Output{Satoshis: 900, LockingScript: scriptPtr(sp.lock)})
+		return sp
+	}
+	sign := func(sp *spend, when string) bool {
+		c.Exec()
+		if err := sp.tx.FillInput(context.Background(), &unlocker.Simple{PrivateKey: sp.priv}, bt.UnlockerParams{InputIdx: 0, SigHashFlags: sighash.Flag(flag)}); err != nil {
+			c.Fail("sign-failed", flagName(flag), "FillInput (%s) failed: %v", when, err)
+			return false
+		}
+		return true
+	}
+	check := func(sp *spend, lock []byte, want bool, when string) bool {
+		got, why := s.verify(sp.tx.Clone(), 0, sp.value, lock, flag)
+		if got != want {
+			c.Fail(map[bool]string{true: "accepts-changed-commitment", false: "rejects-unchanged-commitment"}[got], flagName(flag),
+				"%s: accepted=%v (%s), expected %v", when, got, why, want)
+			return false
+		}
+		return true
+	}
+	for i := 0; i < 3; i++ {
+		sp := mk(i)
+		if sp == nil || !sign(sp, "before the churn") || !check(sp, sp.lock, true, "a freshly signed spend") {
+			return
+		}
+		first = append(first, sp)
+	}
+	// other people's keys: x coordinates from a private generator (about half of them are on the curve)
+	g := kernel.NewXoshiro(seed ^ 0x6b657973)
+	carrier := mk(100)
+	if carrier == nil {
+		return
+	}
+	junk := []byte{0x30, 0x06, 0x02, 0x01, 0x01, 0x02, 0x01, 0x01, flag}
+	us := append([]byte{byte(len(junk))}, junk...)
+	carrier.tx.Inputs[0].UnlockingScript = scriptPtr(us)
+	eng := interpreter.NewEngine()
+	parsed := 0
+	for parsed < nkeys && !c.Failed() {
+		pk := make([]byte, 33)
+		pk[0] = 2 + byte(g.Next()&1)
+		for j := 1; j < 33; j += 8 {
+			binary.BigEndian.PutUint64(pk[j:], g.Next())
+		}
+		if _, err := bec.ParsePubKey(pk, bec.S256()); err != nil {
+			continue
+		}
+		parsed++
+		lock := append(append([]byte{33}, pk...), 0xac)
+		opts := []interpreter.ExecutionOptionFunc{interpreter.WithTx(carrier.tx, 0, &bt.Output{Satoshis: carrier.value, LockingScript: scriptPtr(lock)}), interpreter.WithAfterGenesis()}
+		if flag&0x40 != 0 {
+			opts = append(opts, interpreter.WithForkID())
+		}
+		if parsed%4096 == 1 {
+			c.Exec()
+		}
+		_ = catch(func() { _ = eng.Execute(opts...) })
+	}
+	c.Count("probe.key_churn_distinct_public_keys", parsed)
+	for i, sp := range first {
+		if !check(sp, sp.lock, true, fmt.Sprintf("the untouched spend of party %d, verified again after the process has checked signatures for %d other public keys", i, parsed)) {
+			return
+		}
+	}
+	for i, sp := range first {
+		sp.tx.Outputs[0].Satoshis++
+		if !sign(sp, "after the churn") || !check(sp, sp.lock, true, fmt.Sprintf("party %d signs afresh after %d other public keys were seen", i, parsed)) {
+			return
+		}
+		// the same signature presented for the next party's output must fail
+		other := first[(i+1)%len(first)]
+		if !check(sp, other.lock, false, fmt.Sprintf("party %d's signature presented against party %d's locking script after the churn", i, (i+1)%len(first))) {
+			return
+		}
+	}
+	c.Count("probe.key_churn_runs", 1)
+}
+
 func (w *c04World) Run(c *kernel.RunCtx) {
+	if c.RunIdx%30000 == 3 {
+		w.keyChurn(c)
+		return
+	}
 	if c.RunIdx%8 == 5 {
 		w.inputCountSweep(c)
 		return
